@@ -130,6 +130,13 @@ var errAlpha = []string{
 	"LEN:B+1",
 	"LEN:2B+3",
 	"CRLF:[WARN] crlf",
+	// a level tag (or "panic:") followed directly by something other than a blank
+	"[ERROR]: disk full",
+	"[WARN]\tfoo",
+	"[INFO]plugin ready",
+	"[DEBUG][http] GET /",
+	"panic:boom",
+	"[TRACE]x",
 }
 
 func errLine(tok string, B int) (content string, eol string) {
